@@ -1951,7 +1951,7 @@ class Logger:
 
             @contextlib.contextmanager
             def opener():
-                with open(str(file)) as fileobj:
+                with open(file) as fileobj:
                     yield fileobj
 
         elif hasattr(file, "read") and callable(file.read):
